@@ -125,7 +125,7 @@ func c07CheckTable(t codon.Table, id int, pat string, W sparse, Elig map[string]
 		break // one residue per table is enough
 	}
 	// unencodable residues must be rejected with an error
-	probe := append(dead, "J", "k", "@")
+	probe := append(dead, "J", "k", "@", " ", "\n", "\t", "\r", "\x00", "0", "-", ".", "B", "X", "Z", "U", "O", "\u00e9", "\u212a")
 	if _, has := cs.Elig["*"]; !has {
 		probe = append(probe, "*") // a genetic code without a stop signal among its letters (27, 28, 31)
 	}
